@@ -1046,6 +1046,12 @@ func (lc *linCtx) inductionFacts(p *ssa.Phi) []cons {
 			if !allUp && !allDown {
 				return nil
 			}
+			// a symbolic step is file- or caller-controlled: i + s may wrap around unless the
+			// loop itself keeps i + s below a program quantity on the back edge. Require that
+			// the latch entails i + s <= B for the bound B of the loop condition (i <= B / i < B).
+			if !lc.stepCannotOverflow(p, step) {
+				return nil
+			}
 			for _, a := range step.atoms() {
 				if v, ok := valueIndexCached(lc)[a]; ok {
 					if in, ok := v.(ssa.Instruction); ok && in.Block() != nil && p.Block().Dominates(in.Block()) && in.Block() != p.Block() {
@@ -1077,6 +1083,49 @@ func (lc *linCtx) inductionFacts(p *ssa.Phi) []cons {
 		out = append(out, consLE(linAtom(atom), inits[0], fmt.Sprintf("induction: %s starts at %s and only decreases", atom, inits[0])))
 	}
 	return out
+}
+
+// stepCannotOverflow: for i = φ(init, i + s) with a symbolic s >= 0, the value i + s
+// computed on the back edge is bounded by the loop bound B (from the header condition
+// i <= B or i < B) on every back edge: hypotheses at the latch entail i + s <= B.
+// Then i + s never exceeds a quantity that already fits in an int.
+func (lc *linCtx) stepCannotOverflow(p *ssa.Phi, step lin) bool {
+	h := p.Block()
+	ifi, ok := h.Instrs[len(h.Instrs)-1].(*ssa.If)
+	if !ok {
+		return false
+	}
+	bo, ok := ifi.Cond.(*ssa.BinOp)
+	if !ok {
+		return false
+	}
+	var B lin
+	switch {
+	case (bo.Op == token.LEQ || bo.Op == token.LSS) && bo.X == ssa.Value(p):
+		B = lc.of(bo.Y)
+	case (bo.Op == token.GEQ || bo.Op == token.GTR) && bo.Y == ssa.Value(p):
+		B = lc.of(bo.X)
+	default:
+		return false
+	}
+	atom := p.Name() + "@" + shortFn(p)
+	next := linAtom(atom).add(step)
+	for i, e := range p.Edges {
+		pred := h.Preds[i]
+		if !h.Dominates(pred) {
+			continue // entry edge
+		}
+		_ = e
+		// hypotheses on the back edge: dominators of the latch plus the latch's own branch
+		H := lc.hypAtBlock(pred)
+		if lifi, ok := pred.Instrs[len(pred.Instrs)-1].(*ssa.If); ok && pred.Succs[0] != pred.Succs[1] {
+			H = append(H, lc.condCons(lifi.Cond, pred.Succs[0] == h)...)
+		}
+		if !entails(H, consLE(next, B, "i + step <= bound")) {
+			return false
+		}
+	}
+	return true
 }
 
 // factsFor gathers derived facts for every atom occurring in the forms
